@@ -1567,6 +1567,11 @@ func (s *ImmuStore) fetchVLog(vLogID byte) (appendable.Appendable, error) {
 		return s.vLogs[0].vLog, nil
 	}
 
+	if _, ok := s.vLogs[vLogID-1]; !ok {
+		// the vLogID is decoded from a stored offset, which may be corrupted
+		return nil, fmt.Errorf("%w: invalid vLogID %d", ErrUnexpectedError, vLogID)
+	}
+
 	s.vLogsCond.L.Lock()
 	defer s.vLogsCond.L.Unlock()
 
